@@ -21,17 +21,19 @@ import (
 
 // staticCase: one option set and one request against the fixture tree (C16).
 type staticCase struct {
-	Prefix   string `json:"prefix"`
-	Index    string `json:"index,omitempty"`
-	ETag     bool   `json:"etag,omitempty"`
-	Headers  bool   `json:"expires_cachecontrol,omitempty"`
-	CustomFS bool   `json:"custom_filesystem,omitempty"` // FileSystem option instead of Directory
-	Fault    string `json:"fault,omitempty"`             // "" | open | stat | index-open | index-stat
-	Method   string `json:"method"`
-	Path     core.B `json:"path"`
-	INM      string `json:"if_none_match,omitempty"` // "" | match | other
-	Logging  bool   `json:"enable_logging,omitempty"`
-	Query    string `json:"raw_query,omitempty"` // the request also carries a query string (irrelevant to what is served or where a directory is redirected to)
+	Prefix     string `json:"prefix"`
+	Index      string `json:"index,omitempty"`
+	ETag       bool   `json:"etag,omitempty"`
+	Headers    bool   `json:"expires_cachecontrol,omitempty"`
+	CustomFS   bool   `json:"custom_filesystem,omitempty"` // FileSystem option instead of Directory
+	Fault      string `json:"fault,omitempty"`             // "" | open | stat | index-open | index-stat
+	Method     string `json:"method"`
+	Path       core.B `json:"path"`
+	INM        string `json:"if_none_match,omitempty"` // "" | match | other
+	Logging    bool   `json:"enable_logging,omitempty"`
+	Query      string `json:"raw_query,omitempty"`                                // the request also carries a query string (irrelevant to what is served or where a directory is redirected to)
+	DefaultDir bool   `json:"directory_option_unset,omitempty"`                   // neither Directory nor FileSystem given: the documented default "public" (relative to the working directory, which is the fixture root) is served
+	Spread     bool   `json:"options_passed_as_slice_then_overwritten,omitempty"` // Static(slice...) and the caller reuses the slice afterwards: the middleware keeps the options it was created with
 }
 
 func init() {
@@ -51,6 +53,7 @@ func init() {
 // ---- fixture: every file, inside and outside, has unique content ----------------
 
 type fixture struct {
+	cwd   string // working directory to return to
 	root  string
 	pub   string
 	files map[string]string // absolute path -> content
@@ -90,10 +93,25 @@ func newFixture() *fixture {
 	}
 	_ = os.MkdirAll(filepath.Join(fx.pub, "noidx"), 0o755)
 	_ = os.MkdirAll(filepath.Join(fx.pub, "diridx", "index.html"), 0o755) // the index is a directory
+	// The documented default of the Directory option is "public", relative to the working directory: the
+	// process works inside the fixture root, where "public" is another name of the served tree and every
+	// other entry is an outside file.
+	fx.cwd, _ = os.Getwd()
+	if err := os.Symlink("pub", filepath.Join(root, "public")); err != nil {
+		panic(err)
+	}
+	if err := os.Chdir(root); err != nil {
+		panic(err)
+	}
 	return fx
 }
 
-func (fx *fixture) remove() { _ = os.RemoveAll(fx.root) }
+func (fx *fixture) remove() {
+	if fx.cwd != "" {
+		_ = os.Chdir(fx.cwd)
+	}
+	_ = os.RemoveAll(fx.root)
+}
 
 // faultyFS injects Open/Stat failures.
 type faultyFS struct {
@@ -319,14 +337,16 @@ var staticPrefixes = []string{"", "static", "/static", "static/", "/static/", "/
 
 func genStaticCase(rng *rand.Rand) *staticCase {
 	c := &staticCase{
-		Prefix:   staticPrefixes[rng.Intn(len(staticPrefixes))],
-		Index:    []string{"", "", "home.htm", "b", "missing.html"}[rng.Intn(5)],
-		ETag:     rng.Intn(2) == 0,
-		Headers:  rng.Intn(2) == 0,
-		Logging:  rng.Intn(4) == 0,
-		Query:    []string{"", "", "", "x=1", "a=b&c=d", "/", "%2F..%2F"}[rng.Intn(7)],
-		CustomFS: rng.Intn(4) == 0,
-		Method:   "GET",
+		Prefix:     staticPrefixes[rng.Intn(len(staticPrefixes))],
+		Index:      []string{"", "", "home.htm", "b", "missing.html"}[rng.Intn(5)],
+		ETag:       rng.Intn(2) == 0,
+		Headers:    rng.Intn(2) == 0,
+		Logging:    rng.Intn(4) == 0,
+		Query:      []string{"", "", "", "x=1", "a=b&c=d", "/", "%2F..%2F"}[rng.Intn(7)],
+		CustomFS:   rng.Intn(4) == 0,
+		Method:     "GET",
+		DefaultDir: rng.Intn(5) == 0,
+		Spread:     rng.Intn(6) == 0,
 	}
 	if rng.Intn(3) == 0 {
 		c.Method = []string{"HEAD", "POST", "PUT", "OPTIONS", "get", "DELETE", "", "PATCH"}[rng.Intn(8)]
@@ -412,8 +432,20 @@ func judgeStatic(w *core.W, fx *fixture, c *staticCase, classes func(string)) {
 		}
 		opts.FileSystem = fsys
 	}
+	if c.DefaultDir && opts.FileSystem == nil {
+		opts.Directory = ""
+		w.Count("directory-option-unset")
+	}
 	f := flamego.NewWithLogger(io.Discard)
-	f.Use(flamego.Static(opts))
+	if c.Spread {
+		sl := []flamego.StaticOptions{opts}
+		h := flamego.Static(sl...)
+		sl[0] = flamego.StaticOptions{Directory: filepath.Join(fx.root, "pubx"), Prefix: "/scribbled", Index: "leak", FileSystem: http.Dir(fx.root)}
+		f.Use(h)
+		w.Count("options-slice-overwritten-after-creation")
+	} else {
+		f.Use(flamego.Static(opts))
+	}
 	nextRan := false
 	f.NotFound(func() { nextRan = true })
 	for _, m := range routerMethods {
@@ -510,8 +542,8 @@ func staticClass(fx *fixture, c *staticCase, want staticOutcome) string {
 }
 
 func runC16(r *core.Run) {
-	r.Rule("fixture tree with unique content per file: inside pub/{a.txt, dir/{index.html,b}, index.html, 'sp ace', ..x, idx2/home.htm, deep/d2/index.html, static/a.txt, s/t/u.txt, noidx/, diridx/index.html/} and outside {secret.txt, pubx/leak, pub2/a.txt, index.html, a.txt}; requests: 0-5 segments from a pool with .., ., empty, NUL, backslash, %2e%2e, prefix look-alikes (/staticfoo, /static..), doubled and trailing slashes, a 200-fold ../ run; methods GET/HEAD/others/lower-case/empty; options: Prefix in 8 spellings incl. '/', two segments and doubled slashes, Index default/custom/missing, ETag (+If-None-Match match/other), Expires+CacheControl, FileSystem option, faulty FileSystem (Open/Stat failures, also for the index). Oracle: independent outcome function (path.Clean + os.Stat on the fixture) and the universal predicate that no outside-file marker ever appears; silent = no status, no body, no headers and the rest of the chain ran. non-trivial = distinct (option set, method, path class, path)")
-	r.Assume("no symlinks and no Range / If-Modified-Since requests; for paths with NUL or backslash only the safety predicates are judged (how http.Dir treats odd bytes is net/http's business)")
+	r.Rule("fixture tree with unique content per file: inside pub/{a.txt, dir/{index.html,b}, index.html, 'sp ace', ..x, idx2/home.htm, deep/d2/index.html, static/a.txt, s/t/u.txt, noidx/, diridx/index.html/} and outside {secret.txt, pubx/leak, pub2/a.txt, index.html, a.txt}; requests: 0-5 segments from a pool with .., ., empty, NUL, backslash, %2e%2e, prefix look-alikes (/staticfoo, /static..), doubled and trailing slashes, a 200-fold ../ run; methods GET/HEAD/others/lower-case/empty; options: Prefix in 8 spellings incl. '/', two segments and doubled slashes, Index default/custom/missing, ETag (+If-None-Match match/other), Expires+CacheControl, FileSystem option, faulty FileSystem (Open/Stat failures, also for the index), Directory left unset (default `public` under the working directory), options passed as a slice that the caller overwrites afterwards. Oracle: independent outcome function (path.Clean + os.Stat on the fixture) and the universal predicate that no outside-file marker ever appears; silent = no status, no body, no headers and the rest of the chain ran. non-trivial = distinct (option set, method, path class, path)")
+	r.Assume("no symlinks inside the served tree (the fixture root holds one, `public` -> `pub`, so that the default Directory can be exercised: the process works inside the fixture root) and no Range / If-Modified-Since requests; for paths with NUL or backslash only the safety predicates are judged (how http.Dir treats odd bytes is net/http's business)")
 	fx := newFixture()
 	defer fx.remove()
 	c16Canaries(r, fx)
@@ -521,7 +553,7 @@ func runC16(r *core.Run) {
 		w.Begin("static", c)
 		judgeStatic(w, fx, c, nil)
 	})
-	for _, k := range []string{"class:traversal-in", "class:traversal-out", "class:look-alike", "class:dir-no-slash", "class:dir-slash", "class:dir-no-index-or-missing", "class:file", "class:missing", "class:NUL", "class:other-method", "outcome:file", "outcome:redirect", "outcome:not-modified", "outcome:silent", "fault:open", "fault:stat", "fault:index-open", "fault:index-stat"} {
+	for _, k := range []string{"class:traversal-in", "class:traversal-out", "class:look-alike", "class:dir-no-slash", "class:dir-slash", "class:dir-no-index-or-missing", "class:file", "class:missing", "class:NUL", "class:other-method", "outcome:file", "outcome:redirect", "outcome:not-modified", "outcome:silent", "fault:open", "fault:stat", "fault:index-open", "fault:index-stat", "directory-option-unset", "options-slice-overwritten-after-creation"} {
 		r.GateCounter(k, 30)
 	}
 	r.Gate("distinct_nontrivial", r.NonTrivialCount(), 5000)
